@@ -33,6 +33,9 @@ def corpus():
         dist("regular", 0, 3, [1]),          # D9: non-positive interval must be rejected
         dist("random", -5 * MS, 3, [1]),
         dist("bogus", 1000 * MS, 3, [1]),
+        # many consecutive cycles: the accumulator must restart at every cycle (residue 998e-7 per cycle
+        # would otherwise add up to a whole extra iteration after ~10^4 cycles)
+        "distsum regular %d 10100 100" % (999 * 100 * MS),
         # D15 (known findings): outside the envelope
         "distsum regular %d 1 1" % (2 * 10**6 * 10**9),
         "distsum regular %d 3 960315879,960315879,960315879" % (700 * MS),
